@@ -41,10 +41,12 @@ VecRev(C) ==
   \/ \E z \in InChunk(-6..62, C), n \in B2, x \in {10, 40}, y \in {40, 100} : v' = <<"rev", z, n, x, 0, y, 0, FALSE>>
 
 dg(i) == 48 + i
-DigParts == {<<>>, <<dg(0)>>, <<dg(1)>>, <<dg(6)>>, <<dg(9)>>, <<dg(0), dg(0)>>, <<dg(0), dg(1)>>, <<dg(0), dg(6)>>,
-             <<dg(3), dg(1)>>, <<dg(6), dg(0)>>, <<dg(6), dg(1)>>, <<dg(9), dg(9)>>, <<dg(0), dg(0), dg(1)>>,
+\* every one- and two-digit number string (the zone number is decimal: "08", "09" are zones 8 and 9), plus malformed ones
+DigParts == {<<>>} \cup {<<dg(i)>> : i \in 0..9} \cup {<<dg(i), dg(j)>> : i \in 0..9, j \in 0..9}
+            \cup {<<dg(0), dg(0), dg(1)>>, <<dg(0), dg(0), dg(8)>>, <<dg(0), dg(0), dg(9)>>,
              <<dg(0), dg(6), dg(0)>>, <<dg(0), dg(0), dg(6), dg(0)>>, <<43, dg(3)>>, <<45, dg(3)>>, <<32, dg(3)>>,
-             <<dg(3), 32>>, <<dg(1), 101, dg(1)>>, <<dg(3), 46, dg(0)>>, <<48, 120, dg(3)>>}
+             <<dg(3), 32>>, <<dg(1), 101, dg(1)>>, <<dg(3), 46, dg(0)>>, <<48, 120, dg(3)>>, <<48, 120, dg(8)>>, <<48, 88, dg(3)>>,
+             <<48, 111, dg(7)>>, <<48, 98, dg(1)>>}
 Words == {<<>>, W_n, W_s, <<78>>, <<83>>, W_north, W_south, <<78, 111, 114, 116, 104>>, <<83, 79, 85, 84, 72>>,
           <<110, 111, 114, 116>>, <<115, 111, 117, 116>>, W_north \o <<115>>, <<120>>, <<101>>, <<80>>,
           W_inv, W_invalid, <<73, 78, 86>>, <<73, 110, 118>>, <<105, 110, 118, 97, 108, 105>>, W_invalid \o <<120>>,
@@ -55,12 +57,33 @@ VecStr(C) ==
   \/ \E e \in InChunk(32000..33000 \cup {-1, 0, 4326, 3857, 65535}, C) : v' = <<"epsgd", e>>
   \/ C = 2 /\ \E z \in -6..62, n \in B2 : v' = <<"epsge", z, n>>
 
+\* Transfer lattice: the point (a+da ulp, b) expressed in zone sin (the UTM zone of the point or a neighbour; UPS near the
+\* poles), optionally in the other hemisphere's convention, transferred to (zout, nout).  The last component is the zone
+\* the specification expects (-99 when the point sits on a zone edge and several are admissible).
+TrLat == {<<-90, 0>>, <<-85, 0>>, <<-81, 0>>, <<-80, -1>>, <<-80, 0>>, <<-79, 0>>, <<-1, 0>>, <<0, -1>>, <<0, 0>>, <<1, 0>>, <<40, 0>>,
+          <<56, 0>>, <<60, 0>>, <<64, 0>>, <<72, 0>>, <<75, 0>>, <<83, 0>>, <<84, -1>>, <<84, 0>>, <<85, 0>>, <<90, 0>>}
+TrLon == {-181, -180, -1, 0, 2, 3, 5, 6, 9, 11, 20, 21, 42, 179, 363, -357}
+Wrap60(z) == ((z + 59) % 60) + 1
+ZinOf(lat, b) ==
+  LET u == StdZone(lat, <<b, 0>>, UTMZ)[2] IN
+  IF lat[1] >= 86 \/ lat[1] <= -85 THEN {UPS}          \* beyond the UTM northing range: only UPS coordinates exist
+  ELSE {Wrap60(u - 1), u, Wrap60(u + 1)} \cup (IF lat[1] >= 83 \/ lat[1] <= -79 THEN {UPS} ELSE {})
+ZoutOf(zin) == {-5, INVALID, MATCH, UTMZ, STANDARD, UPS, 61, zin} \cup (IF zin > 0 THEN {Wrap60(zin + 1), Wrap60(zin - 1)} ELSE {31})
+EzOf(zin, zout, lat, lon) ==
+  LET Z == TransferZones(zin, zout, lat, lon) IN IF Cardinality(Z) = 1 THEN CHOOSE z \in Z : TRUE ELSE -99
+VecTr(C) ==
+  \E b \in InChunk(TrLon, C), lat \in TrLat, flip \in B2, nout \in B2 :
+    \E zin \in ZinOf(lat, b) : \E zout \in ZoutOf(zin) :
+      /\ (flip => zin > 0)
+      /\ v' = <<"trl", lat[1], lat[2], b, zin, flip, zout, nout,
+               IF zout < -4 \/ zout > 60 THEN -99 ELSE EzOf(zin, zout, lat, <<b, 0>>)>>
+
 Init == v = <<"root">>
 Next ==
   \/ v = <<"root">> /\ \E c \in 0..(NChunks - 1) : v' = <<"chunk", c>>
   \/ /\ v[1] = "chunk"
      /\ CASE Part = "sz" -> VecSZ(v[2])
-          [] Part = "fwd" -> VecFwd(v[2]) \/ VecStr(v[2])
+          [] Part = "fwd" -> VecFwd(v[2]) \/ VecStr(v[2]) \/ VecTr(v[2])
           [] Part = "rev" -> VecRev(v[2])
 
 (* ------------------------------ model invariants ------------------------- *)
@@ -98,6 +121,20 @@ StrInv ==
   /\ v[1] = "epsge" =>
        LET e == EncodeEPSG(v[2], v[3]) IN
        IF v[2] \in 0..60 THEN DecodeEPSG(e) = <<v[2], v[3]>> ELSE e = -1
+
+TrInv ==
+  v[1] = "trl" /\ v[7] >= -4 /\ v[7] <= 60 =>
+    LET lat == <<v[2], v[3]>>  lon == <<v[4], 0>>  zin == v[5]  zout == v[7]
+        Z == TransferZones(zin, zout, lat, lon)
+    IN /\ Z # {} /\ Z \subseteq (0..60) \cup {INVALID}
+       /\ (zout >= 0 => Z = {zout})                      \* "this equals zoneout if zoneout >= 0"
+       /\ (zout = MATCH => Z = {zin})
+       /\ (zout = UTMZ => Z \subseteq 1..60)
+       /\ Cardinality(Z) <= 4
+       \* away from the degree lines that carry zone / UPS edges the zone is determined
+       /\ (lon[1] % 3 # 0 /\ lat[1] \notin {-80, 84, 56, 64, 72} => Cardinality(Z) = 1)
+       \* STANDARD differs from UTM only by the UPS substitution
+       /\ (zout = STANDARD => Z \subseteq TransferZones(zin, UTMZ, lat, lon) \cup {UPS})
 
 RevInv ==
   v[1] = "rev" =>
